@@ -11,6 +11,14 @@ dst=/verif/seeded/$name; mkdir -p "$dst"
 cp "$src"/patch.diff "$dst"/patch.diff
 for f in "$src"/*_test.go "$src"/*.go "$src"/notes.md; do [ -f "$f" ] && cp "$f" "$dst"/; done
 demo=$(ls "$src"/*_test.go 2>/dev/null | head -1)
+if [ "$pkg" = auto ] && [ -n "$demo" ]; then
+  pn=$(grep -m1 '^package ' "$demo" | awk '{print $2}' | sed 's/_test$//')
+  case "$pn" in
+    streamsql) pkg=./ ;;
+    e2e) pkg=./test/e2e/ ;;
+    *) pkg=./$(cd /repo && grep -rl --include='*.go' "^package $pn\$" . | grep -v _test.go | head -1 | xargs dirname | sed 's|^\./||')/ ;;
+  esac
+fi
 res_with=NA; res_without=NA; tests=NA
 if [ -n "$demo" ]; then
   cp "$demo" "$wt/$pkg/"
